@@ -67,7 +67,7 @@ Proof.
   { destruct args as [|g [|? ?]]; try apply ole_refl. cbn [ole]. apply once_mono. apply call_goal_mono; exact H. }
   destruct (str_eqb name (s_ "findall")).
   { destruct args as [|t [|g [|l [|? ?]]]]; try apply ole_refl. cbn [ole].
-    exact (@findall_mono _ _ (fun xs => let '(es, b) := collect (nxt s) (nxt s) t xs in
+    exact (@findall_mono _ _ (fun xs => let '(es, b) := collect 0 (nxt s) t xs in
                                         unify_st {| sto := sto s; nxt := b |} l (mk_list es))
                          (@call_goal_mono _ _ H g [] s)). }
   exact I.
